@@ -286,7 +286,7 @@ def run(report):
         for f in l.functions:
             sub = f[len(F):].split(".")[0]
             report.function(f, PKG / "core/experimental" / sub / "__init__.py")
-    run_laws(report, MOD, ls, "C16")
+    run_laws(report, MOD, ls, "C16", plain="quick")
     full = os.environ.get("VERIF_TIER", "quick") == "thorough"
     report.add_bounded("term count of the linear combination", f"unknown term + up to {3 if full else 2} other terms from a pool of 8 "
                        "(generic, compound, dot-valued and unknown-dependent coefficients; cross-product terms)",
